@@ -1,5 +1,5 @@
 (* C13/Properties.v — the property's clauses as theorems (statements only; proofs are in Proofs*.v). *)
-From Verif Require Import Common.Base C13.Model C13.Spec C13.Proofs1 C13.Proofs2 C13.Proofs3 C13.Proofs4 C13.Proofs5 C13.Instances.
+From Verif Require Import Common.Base C13.Model C13.Spec C13.Proofs1 C13.Proofs2 C13.Proofs3 C13.Proofs4 C13.Proofs5 C13.Proofs6 C13.Instances.
 From Verif Require Import Generated.C13CfgSchema.
 From Coq Require Import String.
 
@@ -209,3 +209,31 @@ Theorem effective_config_no_secret : forall v s,
   In s (cv_scalars (encode v)) -> s = redacted \/ In s (ev_plains v).
 Proof. exact encode_no_secret_l. Qed.
 Print Assumptions effective_config_no_secret.
+
+(* ---- kinds: "mistakes are rejected, not ignored" for values of the wrong kind ---------------- *)
+
+(* for every field kind and every written value of another family of kinds (string for a number,
+   number for a bool, map or list for a scalar, scalar for a struct or a string list, ...) the
+   decode fails (the error names the key: checked by the harness oracle) *)
+Theorem kind_mismatch_rejected : forall k w, family_mismatch k w = true -> decode_leaf k w = DErr.
+Proof. exact mismatch_rejected_l. Qed.
+Print Assumptions kind_mismatch_rejected.
+
+(* full statement "an accepted value is never silently coerced into a different value":
+     forall k w r, decode_leaf k w = r -> r <> DErr -> r <> DKeep -> same_value w r
+   is FALSE of the faithful model (and of the code): a float with a fraction written for an
+   integer-kind field is truncated (known finding C13-FLOAT-TRUNCATED) ... *)
+Theorem no_silent_coercion_refuted :
+  exists k w r, decode_leaf k w = r /\ r <> DErr /\ r <> DKeep /\ ~ same_value w r.
+Proof. exact no_silent_coercion_refuted_l. Qed.
+Print Assumptions no_silent_coercion_refuted.
+
+(* ... and that truncation is the ONLY exception, for all kinds and all written values *)
+Theorem no_silent_coercion_partial : forall k w r,
+  truncating k w = false -> decode_leaf k w = r -> r <> DErr -> r <> DKeep -> same_value w r.
+Proof. exact no_silent_coercion_partial_l. Qed.
+Print Assumptions no_silent_coercion_partial.
+
+Theorem null_leaves_default : forall k, decode_leaf k WNull = DKeep.
+Proof. exact null_keeps_l. Qed.
+Print Assumptions null_leaves_default.
